@@ -155,13 +155,17 @@ CHECKS["C10"] = dict(
                 "granted lock check covering exactly the keys it touches. (c) real posix lock storage on the file-system model: from an object under legal "
                 "hold / COMPLIANCE / GOVERNANCE with an arbitrary future date, no PutObjectRetention (any mode/date/bypass flag), PutObjectLockConfiguration (any "
                 "accepted document) or PutBucketVersioning(Suspended) weakens the protection: CheckObjectAccess over the real backend still refuses, the "
-                "retention is not removed, shortened or downgraded.",
+                "retention is not removed, shortened or downgraded. (d) end to end: one destructive request (delete, delete by version, put, batch delete, "
+                "copy onto it, multipart completion onto it) through the real route handler over the real posix backend, versioned and unversioned lock "
+                "bucket, three callers, bypass header on/off: the protected version's bytes are still retrievable and unchanged.",
     harnesses=[
         dict(name="H10a-decision", pkgs=["./s3api"], entry="s3api.VfLockDecision", redirects="spec/redirects_ctrl.json", reach=["refused", "let-through"]),
         dict(name="H10b-routes", pkgs=["./s3api"], entry="s3api.VfLockRoutes", redirects="spec/redirects_ctrl_stub.json", reach=["returned", "destructive-call"],
              key_trace=['"route='], panic_ok=True),
         dict(name="H10c-lockstate", pkgs=["./backend/posix"], entry="backend/posix.VfLockState", redirects="spec/redirects_fs.json", reach=["settings-changed"],
              key_trace=['"setting change:']),
+        dict(name="H10d-e2e", pkgs=["./s3api"], entry="s3api.VfLockE2E", redirects="spec/redirects_ctrl.json,spec/redirects_fs.json", reach=["responded"],
+             key_trace=['"request:'], key_inputs=["versioning_dir"]),
     ],
     assumptions=["time.Now = arbitrary non-decreasing whole seconds; AddDate with 365-day years", "H10a/b: lock state comes from the backend model; H10c: real posix storage of lock attributes on the file-system model",
                  "decision functions replaced by recording stand-ins in the route typestate"],
@@ -307,15 +311,19 @@ CHECKS["C09"] = dict(
 )
 
 CHECKS["C11"] = dict(
-    explanation="posix PutObject (new key / overwrite) and DeleteObject on the file-system model, killed before an arbitrary file-system step (every step "
+    explanation="posix PutObject (new key / overwrite), DeleteObject, CompleteMultipartUpload, CopyObject (new / existing destination) and, in a bucket with versioning "
+                "enabled, overwriting PutObject and DeleteObject (previous version must stay retrievable by id) on the file-system model, killed before an arbitrary file-system step (every step "
                 "of the operation is a crash point; no deferred clean-up runs), both temp-file strategies; a fresh Posix value then reads the key: it must "
                 "be in its complete previous or complete new state (bytes, length, ETag consistent), an acknowledged upload persists, left-over "
                 "temporaries are not listed and block neither re-upload, delete nor bucket deletion.",
     harnesses=[
         dict(name="H11-crash", entry="backend/posix.VfCrash", reach=["crashed", "completed-without-crash"], key_trace=['"crash before'], **_FS),
+        dict(name="H11-crash-copy", entry="backend/posix.VfCrashCopy", reach=["crashed", "completed-without-crash"], key_trace=['"crash before'], **_FS),
+        dict(name="H11-crash-versioned", entry="backend/posix.VfCrashVersioned", reach=["crashed", "completed-without-crash"], key_trace=['"crash before'], **_FS),
     ],
     assumptions=["file-system model: every completed step is durable (no fsync modelling), no torn writes", "xattr metadata store"],
-    outside=["CopyObject, CompleteMultipartUpload, UploadPart crash points", "versioned buckets", "sidecar metadata store"],
+    outside=["UploadPart crash points (a part is not an object; its loss before acknowledgement is allowed)", "versioned buckets: multipart completion, delete by version id, suspended versioning",
+             "bodies longer than one byte (multi-write data paths)", "sidecar metadata store", "power loss (unsynced data): every completed step is taken as durable"],
 )
 
 CHECKS["C05"] = dict(
